@@ -37,25 +37,21 @@ Definition exemptions : list (string * aspect * exemption) := [
       ("ws.server.error", 0%Z, []); ("ws.server.error", 2%Z, [])]);
   ("ws.server.errC", Content, Pinned F29 [("ws.server.Stop", 4%Z, []); ("ws.server.error", 2%Z, [])]);
 
+  (* stopC is only touched by the application's own lifecycle calls since the repair F33: the callback routine gets
+     the channel of its session as an argument *)
   ("ocpp1.6.chargePoint.stopC", Ptr, Pinned LIFECYCLE [
-      ("ocpp1.6.chargePoint.SendRequest", 3%Z, []); ("ocpp1.6.chargePoint.Start", 1%Z, []);
-      ("ocpp1.6.chargePoint.Stop", 4%Z, []); ("ocpp1.6.chargePoint.asyncCallbackHandler", 0%Z, [])]);
+      ("ocpp1.6.chargePoint.SendRequest", 3%Z, []); ("ocpp1.6.chargePoint.Start", 1%Z, []); ("ocpp1.6.chargePoint.Start", 0%Z, []);
+      ("ocpp1.6.chargePoint.Stop", 4%Z, [])]);
   ("ocpp1.6.chargePoint.stopC", Content, Pinned LIFECYCLE [("ocpp1.6.chargePoint.Stop", 4%Z, [])]);
   ("ocpp2.0.1.chargingStation.stopC", Ptr, Pinned LIFECYCLE [
-      ("ocpp2.0.1.chargingStation.SendRequest", 3%Z, []); ("ocpp2.0.1.chargingStation.Start", 1%Z, []);
-      ("ocpp2.0.1.chargingStation.StartWithRetries", 1%Z, []); ("ocpp2.0.1.chargingStation.Stop", 4%Z, []);
-      ("ocpp2.0.1.chargingStation.asyncCallbackHandler", 0%Z, [])]);
+      ("ocpp2.0.1.chargingStation.SendRequest", 3%Z, []); ("ocpp2.0.1.chargingStation.Start", 1%Z, []); ("ocpp2.0.1.chargingStation.Start", 0%Z, []);
+      ("ocpp2.0.1.chargingStation.StartWithRetries", 1%Z, []); ("ocpp2.0.1.chargingStation.StartWithRetries", 0%Z, []);
+      ("ocpp2.0.1.chargingStation.Stop", 4%Z, [])]);
   ("ocpp2.0.1.chargingStation.stopC", Content, Pinned LIFECYCLE [("ocpp2.0.1.chargingStation.Stop", 4%Z, [])]);
   ("ocppj.DefaultClientDispatcher.timer", Ptr, Pinned LIFECYCLE [
       ("ocppj.DefaultClientDispatcher.Pause", 0%Z, [(mu_cd, 2%Z)]); ("ocppj.DefaultClientDispatcher.Resume", 0%Z, []);
       ("ocppj.DefaultClientDispatcher.Start", 1%Z, [(mu_cd, 2%Z)]); ("ocppj.DefaultClientDispatcher.VerifFireTimer", 0%Z, [(mu_cd, 1%Z)]);
       ("ocppj.DefaultClientDispatcher.messagePump", 0%Z, [])]);
-  ("ocppj.DefaultServerDispatcher.stoppedC", Ptr, Pinned LIFECYCLE [
-      ("ocppj.DefaultServerDispatcher.Start", 1%Z, [(mu_sd, 2%Z)]); ("ocppj.DefaultServerDispatcher.Stop", 4%Z, [(mu_sd, 2%Z)]);
-      ("ocppj.DefaultServerDispatcher.messagePump", 3%Z, []); ("ocppj.DefaultServerDispatcher.waitForTimeout", 3%Z, [])]);
-  ("ocppj.DefaultServerDispatcher.timerC", Ptr, Pinned LIFECYCLE [
-      ("ocppj.DefaultServerDispatcher.Start", 1%Z, [(mu_sd, 2%Z)]); ("ocppj.DefaultServerDispatcher.VerifTimeoutToken", 2%Z, [(mu_sd, 1%Z)]);
-      ("ocppj.DefaultServerDispatcher.messagePump", 3%Z, []); ("ocppj.DefaultServerDispatcher.waitForTimeout", 2%Z, [(mu_sd, 1%Z)])]);
   (* reconnectC is created by NewClient; connect() only replaces a nil channel, which a constructed client never has *)
   ("ws.client.reconnectC", Ptr, Pinned LIFECYCLE [
       ("ws.client.Start", 0%Z, []); ("ws.client.Start", 3%Z, []); ("ws.client.Stop", 3%Z, []); ("ws.client.Stop", 2%Z, []);
